@@ -189,8 +189,13 @@ func (in *Interp) checkAssert(label string, c Term, note string) {
 		}
 		in.assume(c)
 	case Sat:
-		in.recordViolation(label, model, note)
-		panic(pathEnd{"violation"})
+		R.noteAssert(in, label, "sat", len(neg.E), dt)
+		in.classifyAndRecord(label, neg, model, note)
+		// keep exploring the states of this path that do not violate the assertion
+		if in.sess.Check(c.E, "feas") == Unsat {
+			panic(pathEnd{"violation"})
+		}
+		in.assume(c)
 	default:
 		R.noteAssert(in, label, "unknown", len(neg.E), dt)
 		R.addUnknown(in, label)
@@ -753,4 +758,60 @@ func pMapAny(in *Interp, fn *ssa.Function, a []Value) Value {
 		cs = append(cs, tAnd(s.P, r))
 	}
 	return tOr(cs...)
+}
+
+// smallModel asks for a counterexample with small numbers and short strings (easier to replay through the public API).
+func (in *Interp) smallModel(neg Term) map[string]string {
+	var cs []string
+	for _, v := range in.vars {
+		q := quoteSym(v.Name)
+		switch v.Sort {
+		case "bv32":
+			cs = append(cs, "(bvule "+q+" #x00000008)")
+		case "str":
+			cs = append(cs, "(<= (str.len "+q+") 3)")
+		}
+	}
+	if len(cs) == 0 {
+		return nil
+	}
+	r, m := in.sess.CheckModel("(and "+neg.E+" "+strings.Join(cs, " ")+")", in.varNames(), "assert")
+	if r == Sat {
+		return m
+	}
+	return nil
+}
+
+func (in *Interp) classifyAndRecord(label string, neg Term, model map[string]string, note string) {
+	var known []KnownFinding
+	for _, k := range in.opts.known {
+		if k.Harness == in.spec.Name && k.Label == label {
+			known = append(known, k)
+		}
+	}
+	if len(known) > 0 {
+		var excl []string
+		for _, k := range known {
+			excl = append(excl, "(not "+k.Classifier+")")
+			if in.sess.Check("(and "+neg.E+" "+k.Classifier+")", "assert") == Sat {
+				v := &Violation{Harness: in.spec.Name, Label: label, Known: k.Harness + "/" + k.Label}
+				in.violations = append(in.violations, v)
+			}
+		}
+		r, m2 := in.sess.CheckModel("(and "+neg.E+" "+strings.Join(excl, " ")+")", in.varNames(), "assert")
+		switch r {
+		case Unsat:
+			return // every violating state is a listed finding
+		case Sat:
+			model = m2
+			neg = symBool("(and " + neg.E + " " + strings.Join(excl, " ") + ")")
+		default:
+			in.res.addUnknown(in, label+" (known-finding classifier query)")
+			return
+		}
+	}
+	if sm := in.smallModel(neg); sm != nil {
+		model = sm
+	}
+	in.recordViolation(label, model, note)
 }
